@@ -30,6 +30,22 @@ var corpusDocs = []string{
 	`{ab{... on Beta{tol{__typename}} ... on Alpha{tol{__typename}}}}`,
 	`{ab{... on Alpha{ton{__typename}} ... on Beta{ton{__typename}}}}`,
 	`{ab{... on Beta{ton{__typename}} ... on Alpha{ton{__typename}}}}`,
+	// overlapping fields across parent types: interface / object (must merge), two different objects (need not)
+	`{named{f: name ... on Alpha{f: nick}}}`,
+	`{named{... on Alpha{f: nick} f: name}}`,
+	`{named{friend(n:1){name} ... on Alpha{friend(n:2){name}}}}`,
+	`{named{friend{x: name} ... on Beta{friend{x: nick}}}}`,
+	`{named{... on Alpha{f: name} ... on Beta{f: nick}}}`,
+	`{named{... on Alpha{friend(n:1){name}} ... on Beta{friend(n:2){name}}}}`,
+	`{ab{... on Named{f: name} ... on Alpha{f: nick}}}`,
+	`{named{f: name ... on Named{f: nick}}}`,
+	`{named{f: nick(n:1) ... on Alpha{f: nick(n:1)}}}`,
+	// a variable-using fragment shared by two operations
+	`query A($x:Int){...f} query B($x:Int){...f} fragment f on Query {arg(x:$x)}`,
+	`query A($x:Int){...f} query B{...f} fragment f on Query {arg(x:$x)}`,
+	`query A{...f} query B($x:Int){...f} fragment f on Query {arg(x:$x)}`,
+	`query A($x:Int){...g} query B($x:Int){...g} fragment g on Query {...f} fragment f on Query {arg(x:$x)}`,
+	`query A($x:Int){...g} query B($x:String){...g} fragment g on Query {...f} fragment f on Query {arg(x:$x)}`,
 }
 
 // Named and Tagged share only the gated implementation; GI, GG, Gated need the feature
